@@ -327,4 +327,4 @@ var c08 = &vh.Prop[c08Case]{
 
 func init() { registrars = append(registrars, c08.Register) }
 
-func TestC08(t *testing.T) { c08.Check(t, vh.N(20000, 50000)) }
+func TestC08(t *testing.T) { c08.Check(t, vh.N(20000, 30000)) }
